@@ -48,6 +48,12 @@ def check(tier, seed):
         r66 = rhop + bytes([e['poly'], 0])
         cases.append({'line': f"rej_bounded_poly 0 4 {r66.hex()}", 'tag': 'rej_bounded_poly eta=4 needing a third XOF block', 'want': ",".join(str(x) for x in R.rej_bounded_poly(4, r66)), 'model': True})
     core.run_and_judge(rep, cases, model_every=0)
+    # the literal Lean transcription of Algorithm 6 (Spec.keyGenInternal, what keygen_is_algorithm_6_as_written is about) executed on the same seeds
+    sc = []
+    for s in fam.SETS:
+        for xi in fam.boundary_seeds(s, 2) + fam.zero_sum_seeds(s) + fam.rare_keygen_seeds(s) + fam.seeds(rng, 60 if tier == 'thorough' else 8):
+            sc.append({'rust': f"keygen {s} {xi.hex()}", 'spec': f"spec_keygen {s} {xi.hex()}", 'tag': 'keygen_from_seed == Spec.keyGenInternal executed (literal Lean transcription)', 'map': lambda o: o})
+    core.spec_judge(rep, sc)
     return core.finish(rep, b, 'proof', {
         'rule': 'one case per (set, seed, entry point); seeds include all-00, all-FF and random; non-trivial = distinct seed whose output was compared byte-for-byte with the Python transcription of Algorithm 6',
         'tie': 'correspondence (struct level and byte level) + implementation-vs-oracle'},
